@@ -305,7 +305,7 @@ class Sim:
         ev = {"i": i_step, "op": op, "c": st.get("c")}
         before = self.world_specs()
         n_before = len(self.clients)
-        if op in ("set_params", "clone", "reset", "construct"):
+        if op in ("set_params", "clone", "reset", "construct", "mutate"):
             getattr(self, "op_" + op)(st, ev, i_step)
         elif st.get("c") is None or st["c"] >= len(self.clients):
             ev["noop"] = True
@@ -491,6 +491,36 @@ class Sim:
                 self.clients[j].lin = UNSPEC
             self.probe("reset_rejected")
         self.sig.append((cl.kind, "reset", None, None))
+
+    def op_mutate(self, st, ev, i_step):
+        """The user overwrites one of their own data objects in place (a reused buffer).
+        Every client trained on that object is unspecified until its next fit; a later
+        fit on the same object must see the new values."""
+        d = st["d"]
+        obj = self.ds_obj.get(d)
+        if obj is None or self.ds_spec[d].get("bad"):
+            ev["noop"] = True
+            return
+        self.check_returned()
+        self.returned = []
+        new = np.array(st["values"], dtype=self.ds_spec[d].get("dtype", "float64"))
+        try:
+            if isinstance(obj, np.ndarray):
+                obj[...] = new.reshape(obj.shape)
+            elif isinstance(obj, pd.Series):
+                obj.iloc[:] = new.reshape(-1)
+            else:
+                obj.iloc[:, :] = new.reshape(obj.shape)
+        except Exception:  # noqa: BLE001
+            ev["noop"] = True
+            return
+        self.ds_fp[d] = fingerprint_arg(obj)
+        for c in self.clients:
+            if isinstance(c.lin, list) and any(ch is obj for ch, _ in c.lin):
+                c.lin = UNSPEC
+        self.probe("dataset_mutated_in_place")
+        self.sig.append(("user", "mutate", None, None))
+        ev["res"] = "ok"
 
     def op_construct(self, st, ev, i_step):
         try:
@@ -891,6 +921,9 @@ class Sim:
         for k, v in self.ds_obj.items():
             if fingerprint_arg(v) != self.ds_fp[k]:
                 self.violate("arg_mutated", None, "end", i_step, None, f"dataset {k} differs from its value at the start of the history")
+        self.check_returned()
+
+    def check_returned(self):
         for (st_i, kind, op, raw, can) in self.returned:
             if canon(raw) != can:
                 self.violations.append(
